@@ -197,12 +197,24 @@ def run_case(case):
             with S.cv:
                 S.done[i] = True
                 S.cv.notify_all()
-    ths = [threading.Thread(target=body, args=(i,), daemon=True) for i in range(n)]
-    for t in ths: t.start()
+    if case.get("raw"):
+        # threads the threading module does not know about (started through _thread, as native callbacks are): threading.active_count()
+        # stays 1 while they run
+        import _thread
+        ths = []
+        for i in range(n): _thread.start_new_thread(body, (i,))
+    else:
+        ths = [threading.Thread(target=body, args=(i,), daemon=True) for i in range(n)]
+        for t in ths: t.start()
     blocked = 0
+    stalled = False
     for i in case["schedule"]:
         r = S.step(i % n)
-        if r == "blocked": blocked += 1
+        if r == "blocked":
+            blocked += 1
+            if case.get("stall") and not stalled:
+                # the thread that holds the lock stays descheduled for a long time (a loaded machine, a debugger) while this one waits for it
+                time.sleep(case["stall"]); stalled = True
     # run everything to completion, round robin
     t0 = time.time()
     while not all(S.done) and time.time() - t0 < 10:
